@@ -258,13 +258,12 @@ def lz4_frame(data, split=65536, block_max=4, content_size=False, content_checks
     out = bytearray(struct.pack("<I", 0x184D2204) + desc + bytes([hc]))
     for i in range(0, len(data), split):
         chunk = data[i:i + split]
-        if stored:
+        blk = None if stored else _lz4_literal_block(chunk)
+        if blk is None or len(blk) > bmax:
+            # a block that does not fit the block maximum in compressed form is stored
             blk = chunk
             out += struct.pack("<I", len(blk) | 0x80000000)
         else:
-            blk = _lz4_literal_block(chunk)
-            if len(blk) >= 0x80000000:
-                raise ValueError
             out += struct.pack("<I", len(blk))
         out += blk
         if block_checksum:
